@@ -1,21 +1,28 @@
 //! Engine `chain` (C04): stacks laid out by the calling convention (frame-pointer chains), described
-//! by STACK CFI records, or findable only by scanning, for all context kinds — the generated call
-//! chain is the oracle for `minidump_unwind::walk_stack`, and the Lean model walks the same case.
+//! by STACK CFI or STACK WIN records, or findable only by scanning, for all context kinds — the
+//! generated call chain is the oracle for `minidump_unwind::walk_stack`, and the Lean model walks
+//! the same case.
 //!
-//! case line:  chain <technique> exp:<ret,sp,fp|-,module,function>|... <fields of a `walk` case>
-//! The model is asked twice: `walk …` (frame-by-frame correspondence, through `model_request`) and
-//! `chain pre …` (the decidable precondition `Pre` of the C04 theorems, evaluated on the generated
-//! case): a case outside the precondition is counted (`pre-rejected`) and not used as an oracle.
+//! case line:  chain <technique> exp:<frame>|<frame>... [win:<records>] <fields of a `walk` case>
+//!   frame   = ret,sp,fp|-,module,function|-[,technique|-[,reg=val/reg=val..|-]]
+//!   records = <module>:<rec>;<rec>..,<module>:..   rec = ty|addr|size|par|sav|loc|hp|rest (`_` = space)
+//! techniques: fp | cfi | scan (one technique per walk), win (x86 STACK WIN chains with frames in
+//! unsymbolicated modules below/between), mixed (per-frame alternation on every architecture).
+//! The model is asked twice: the walk itself (frame-by-frame correspondence, through
+//! `model_request`) and `chain pre …` (the decidable precondition `Pre` of the C04 theorems,
+//! evaluated on the generated case): a case outside the precondition is counted (`pre-rejected`)
+//! and not used as an oracle.
 
 use super::walk::*;
 use crate::common::*;
 use minidump::*;
 use minidump_unwind::FrameTrust;
 use std::cell::RefCell;
+use std::collections::BTreeMap;
 
 pub struct Chain;
 
-const TECHS: &[&str] = &["fp", "cfi", "scan"];
+const TECHS: &[&str] = &["fp", "cfi", "scan", "win", "mixed"];
 
 #[derive(Clone, Debug)]
 struct Exp {
@@ -23,7 +30,12 @@ struct Exp {
     sp: u64,
     fp: Option<u64>,
     module: usize,
-    func: String,
+    /// `None`: the frame has no function name (module without symbols)
+    func: Option<String>,
+    /// technique of this frame (`None`: the technique of the case)
+    tech: Option<String>,
+    /// recovered callee-saved registers (other than the frame pointer) and their values
+    regs: Vec<(String, u64)>,
 }
 
 fn render_exp(e: &[Exp]) -> String {
@@ -33,7 +45,25 @@ fn render_exp(e: &[Exp]) -> String {
     format!(
         "exp:{}",
         e.iter()
-            .map(|x| format!("{},{},{},{},{}", x.ret, x.sp, x.fp.map(|v| v.to_string()).unwrap_or_else(|| "-".into()), x.module, x.func))
+            .map(|x| {
+                let mut s = format!(
+                    "{},{},{},{},{}",
+                    x.ret,
+                    x.sp,
+                    x.fp.map(|v| v.to_string()).unwrap_or_else(|| "-".into()),
+                    x.module,
+                    x.func.clone().unwrap_or_else(|| "-".into())
+                );
+                if x.tech.is_some() || !x.regs.is_empty() {
+                    s.push_str(&format!(",{}", x.tech.clone().unwrap_or_else(|| "-".into())));
+                    if x.regs.is_empty() {
+                        s.push_str(",-");
+                    } else {
+                        s.push_str(&format!(",{}", x.regs.iter().map(|(n, v)| format!("{n}={v}")).collect::<Vec<_>>().join("/")));
+                    }
+                }
+                s
+            })
             .collect::<Vec<_>>()
             .join("|")
     )
@@ -47,18 +77,121 @@ fn parse_exp(s: &str) -> Option<Vec<Exp>> {
     body.split('|')
         .map(|f| {
             let p: Vec<&str> = f.split(',').collect();
-            if p.len() != 5 {
+            if !(5..=7).contains(&p.len()) {
                 return None;
+            }
+            let tech = match p.get(5) {
+                None | Some(&"-") => None,
+                Some(t) => Some(t.to_string()),
+            };
+            let mut regs = vec![];
+            if let Some(r) = p.get(6) {
+                if *r != "-" {
+                    for a in r.split('/') {
+                        let (n, v) = a.split_once('=')?;
+                        regs.push((n.to_string(), v.parse().ok()?));
+                    }
+                }
             }
             Some(Exp {
                 ret: p[0].parse().ok()?,
                 sp: p[1].parse().ok()?,
                 fp: if p[2] == "-" { None } else { Some(p[2].parse().ok()?) },
                 module: p[3].parse().ok()?,
-                func: p[4].to_string(),
+                func: if p[4] == "-" { None } else { Some(p[4].to_string()) },
+                tech,
+                regs,
             })
         })
         .collect()
+}
+
+/// one `STACK WIN` record (module-relative address)
+#[derive(Clone, Debug, PartialEq)]
+struct WinRec {
+    ty: char,
+    addr: u64,
+    size: u64,
+    par: u32,
+    sav: u32,
+    loc: u32,
+    /// program string (type 4) or `0` / `1` = allocates_base_pointer (type 0)
+    rest: String,
+}
+
+impl WinRec {
+    fn hp(&self) -> char {
+        if self.ty == '4' {
+            '1'
+        } else {
+            '0'
+        }
+    }
+    fn line(&self) -> String {
+        format!("STACK WIN {} {:x} {:x} 0 0 {:x} {:x} {:x} 0 {} {}\n", self.ty, self.addr, self.size, self.par, self.sav, self.loc, self.hp(), self.rest)
+    }
+}
+
+fn render_wins(w: &[(String, Vec<WinRec>)]) -> String {
+    let parts: Vec<String> = w
+        .iter()
+        .filter(|(_, r)| !r.is_empty())
+        .map(|(m, recs)| {
+            format!(
+                "{}:{}",
+                m,
+                recs.iter()
+                    .map(|r| format!("{}|{}|{}|{}|{}|{}|{}|{}", r.ty, r.addr, r.size, r.par, r.sav, r.loc, r.hp(), r.rest.replace(' ', "_")))
+                    .collect::<Vec<_>>()
+                    .join(";")
+            )
+        })
+        .collect();
+    if parts.is_empty() {
+        "win:-".into()
+    } else {
+        format!("win:{}", parts.join(","))
+    }
+}
+
+fn parse_wins(s: &str) -> Option<Vec<(String, Vec<WinRec>)>> {
+    let body = s.strip_prefix("win:")?;
+    if body == "-" {
+        return Some(vec![]);
+    }
+    let mut out = vec![];
+    for m in body.split(',') {
+        let (name, recs) = m.split_once(':')?;
+        let mut v = vec![];
+        for r in recs.split(';').filter(|x| !x.is_empty()) {
+            let p: Vec<&str> = r.split('|').collect();
+            if p.len() != 8 {
+                return None;
+            }
+            let ty = p[0].chars().next()?;
+            let rec = WinRec { ty, addr: p[1].parse().ok()?, size: p[2].parse().ok()?, par: p[3].parse().ok()?, sav: p[4].parse().ok()?, loc: p[5].parse().ok()?, rest: p[7].replace('_', " ") };
+            if p[6].chars().next()? != rec.hp() {
+                return None;
+            }
+            v.push(rec);
+        }
+        out.push((name.to_string(), v));
+    }
+    Some(out)
+}
+
+/// split a case line into (technique, expectation, STACK WIN records, the `walk` case)
+fn parse_case(case: &str) -> Option<(String, Vec<Exp>, Vec<(String, Vec<WinRec>)>, Case)> {
+    let third = case.split(' ').filter(|s| !s.is_empty()).nth(3).unwrap_or("");
+    let n_extra = if third.starts_with("win:") { 3 } else { 2 };
+    let c = Case::parse(case, n_extra)?;
+    let tech = c.extra[0].clone();
+    let exp = parse_exp(&c.extra[1])?;
+    let wins = if n_extra == 3 { parse_wins(&c.extra[2])? } else { vec![] };
+    if !TECHS.contains(&tech.as_str()) {
+        return None;
+    }
+    Some((tech, exp, wins, c))
 }
 
 thread_local! {
@@ -160,7 +293,7 @@ fn gen_chain(rng: &mut Rng, tech: &str, arch: &str, os: &str) -> Option<String> 
                 let slack = if win { 16 * rng.below((gap * p / 16).min(15) + 1) } else { 0 };
                 put(&mut words, f, addr(next_f) - slack);
                 put(&mut words, f + 1, ret);
-                exp.push(Exp { ret, sp: addr(f + 2), fp: Some(addr(next_f) - slack), module: funcs[k].module, func: func_name(&world, &funcs[k]) });
+                exp.push(Exp { ret, sp: addr(f + 2), fp: Some(addr(next_f) - slack), module: funcs[k].module, func: Some(func_name(&world, &funcs[k])), tech: None, regs: vec![] });
                 f = next_f;
             }
             // the outermost record: saved fp = 0, return address = 0; then zeros to the end
@@ -217,7 +350,7 @@ fn gen_chain(rng: &mut Rng, tech: &str, arch: &str, os: &str) -> Option<String> 
                     }
                     s += n;
                 }
-                exp.push(Exp { ret, sp: addr(s), fp: Some(fp_now), module: funcs[next].module, func: func_name(&world, &funcs[next]) });
+                exp.push(Exp { ret, sp: addr(s), fp: Some(fp_now), module: funcs[next].module, func: Some(func_name(&world, &funcs[next])), tech: None, regs: vec![] });
                 cur = next;
             }
             put(&mut words, s + 2 + rng.below(8), 0);
@@ -246,7 +379,7 @@ fn gen_chain(rng: &mut Rng, tech: &str, arch: &str, os: &str) -> Option<String> 
                 }
                 put(&mut words, s + junk, ret);
                 s += junk + 1;
-                exp.push(Exp { ret, sp: addr(s), fp: None, module: funcs[k].module, func: func_name(&world, &funcs[k]) });
+                exp.push(Exp { ret, sp: addr(s), fp: None, module: funcs[k].module, func: Some(func_name(&world, &funcs[k])), tech: None, regs: vec![] });
             }
             put(&mut words, s + 2 + rng.below(8), 0);
         }
@@ -257,7 +390,7 @@ fn gen_chain(rng: &mut Rng, tech: &str, arch: &str, os: &str) -> Option<String> 
     }
     let case = Case {
         engine: "chain".into(),
-        extra: vec![tech.to_string(), render_exp(&exp)],
+        extra: vec![tech.to_string(), render_exp(&exp), "win:-".to_string()],
         arch: arch.into(),
         os: os.into(),
         regs,
@@ -270,12 +403,795 @@ fn gen_chain(rng: &mut Rng, tech: &str, arch: &str, os: &str) -> Option<String> 
     Some(case.render())
 }
 
+
+// ------------------------------------------------------------------------ mixed / STACK WIN chains
+
+/// how a function's frame is found
+#[derive(Clone, Debug, PartialEq)]
+enum Kind {
+    /// FUNC only (or no symbols at all): frame pointer where the architecture has that technique
+    /// and the callee's frame pointer is live, else scan
+    Plain,
+    /// canonical STACK CFI, frame of `words` words, saved registers in slot order (slot k at `.cfa - (k+2)W`)
+    Cfi { words: u64, saved: Vec<String> },
+    /// `.cfa: sp 0 + .ra: lr` (ARM/ARM64/MIPS, first frame only)
+    CfiLeaf,
+    /// STACK WIN 4, standard prologue program; `saved` = (register, offset below `$T0 = $ebp`)
+    WinStd { saved: Vec<(String, u64)>, msvc: bool },
+    /// STACK WIN 4, `.raSearch` program containing `@` (search start = `$ebp + 4`)
+    WinRaAt { saved: Vec<(String, u64)> },
+    /// STACK WIN 4, `.raSearch` program (search start = `$esp + locals + saved + callee params`)
+    WinRa { ebp_off: Option<u64>, saved: Vec<(String, u64)> },
+    /// STACK WIN 0 (FPO)
+    Fpo { abp: bool },
+}
+
+#[derive(Clone, Debug)]
+struct MFunc {
+    module: usize,
+    start: u64,
+    size: u64,
+    name: Option<String>,
+    kind: Kind,
+    /// `parameter_size` that `fill_symbol` records on a frame in this function (None: no FUNC)
+    psize: Option<u32>,
+    sav: u32,
+    loc: u32,
+}
+
+#[derive(Clone, Copy, Debug, PartialEq)]
+enum Word {
+    Val(u64),
+    /// address of the stack word with this index
+    Addr(u64),
+}
+
+/// state of the frame pointer register in the frame being unwound
+#[derive(Clone, Copy, Debug, PartialEq)]
+enum Fp {
+    Invalid,
+    Zero,
+    /// points at the stack word with this index, at or above the frame's stack pointer
+    Live(u64),
+    /// valid, but no frame record is there
+    Stale(Word),
+}
+
+impl Fp {
+    fn word(&self) -> Option<Word> {
+        match self {
+            Fp::Invalid => None,
+            Fp::Zero => Some(Word::Val(0)),
+            Fp::Live(x) => Some(Word::Addr(*x)),
+            Fp::Stale(w) => Some(*w),
+        }
+    }
+}
+
+fn other_callee_saved(arch: &str) -> &'static [&'static str] {
+    match arch {
+        "x86" => &["ebx", "edi", "esi"],
+        "amd64" => &["rbx", "r12", "r13", "r14", "r15"],
+        "arm" => &["r4", "r5", "r6", "r7", "r8", "r9", "r10"],
+        "arm64" | "arm64old" => &["x19", "x20", "x21", "x22", "x23", "x24", "x25", "x26", "x27", "x28"],
+        _ => &["s0", "s1", "s2", "s3", "s4", "s5", "s6", "s7", "gp"],
+    }
+}
+
+/// `.cfa: $sp N + .ra: .cfa -W + ^ r1: .cfa -2W + ^ r2: .cfa -3W + ^ …`
+fn canonical_cfi_regs(arch: &str, words: u64, saved: &[String]) -> String {
+    let w = ptr_of(arch);
+    let mut s = format!(".cfa: {} {} + .ra: .cfa -{} + ^", reg_tok(arch, sp_name(arch)), words * w, w);
+    for (k, r) in saved.iter().enumerate() {
+        s.push_str(&format!(" {}: .cfa -{} + ^", reg_tok(arch, r), (k as u64 + 2) * w));
+    }
+    s
+}
+
+fn win_program(kind: &Kind) -> String {
+    let sv = |s: &mut String, saved: &[(String, u64)]| {
+        for (r, off) in saved {
+            s.push_str(&format!(" ${r} $T0 {off} - ^ ="));
+        }
+    };
+    match kind {
+        Kind::WinStd { saved, msvc } => {
+            let mut s = "$T0 $ebp = $eip $T0 4 + ^ = $ebp $T0 ^ = $esp $T0 8 + =".to_string();
+            if *msvc {
+                s.push_str(" $L $T0 .cbSavedRegs - = $P $T0 8 + .cbParams + =");
+            }
+            sv(&mut s, saved);
+            s
+        }
+        Kind::WinRaAt { saved } => {
+            let mut s = "$T0 .raSearch = $eip $T0 ^ = $esp $T0 4 + = $ebp $T0 4 - ^ =".to_string();
+            sv(&mut s, saved);
+            s.push_str(" $T1 $esp 16 @ =");
+            s
+        }
+        Kind::WinRa { ebp_off, saved } => {
+            let mut s = "$T0 .raSearch = $eip $T0 ^ = $esp $T0 4 + =".to_string();
+            match ebp_off {
+                Some(off) => s.push_str(&format!(" $ebp $T0 {off} - ^ =")),
+                None => s.push_str(" $ebp $ebp ="),
+            }
+            sv(&mut s, saved);
+            s
+        }
+        _ => String::new(),
+    }
+}
+
+struct MWorld {
+    mods: Vec<(u64, u32, String)>,
+    syms: Vec<(String, Vec<Rec>)>,
+    wins: Vec<(String, Vec<WinRec>)>,
+    funcs: Vec<MFunc>,
+}
+
+fn pick_saved(rng: &mut Rng, n: u64, first_off: u64) -> Vec<(String, u64)> {
+    let mut names = vec!["ebx", "esi", "edi"];
+    let mut out = vec![];
+    let mut off = first_off;
+    for _ in 0..n.min(3) {
+        let i = rng.below(names.len() as u64) as usize;
+        out.push((names.remove(i).to_string(), off));
+        off += 4 * (1 + rng.below(2));
+    }
+    out
+}
+
+fn build_mworld(rng: &mut Rng, arch: &str, winny: bool) -> MWorld {
+    let wide = ptr_of(arch) == 8;
+    let x86 = arch == "x86";
+    let mut w = MWorld { mods: vec![], syms: vec![], wins: vec![], funcs: vec![] };
+    let nmods = 2 + rng.below(3) as usize;
+    let mut kinds: Vec<&str> = (0..nmods)
+        .map(|_| if x86 { *rng.pick(&["win", "win", "nosym", "plain", "cfi"]) } else { *rng.pick(&["cfi", "cfi", "plain", "nosym"]) })
+        .collect();
+    if !kinds.iter().any(|k| *k == "plain" || *k == "nosym") {
+        let i = rng.below(nmods as u64) as usize;
+        kinds[i] = if rng.chance(1, 2) { "plain" } else { "nosym" };
+    }
+    if winny && !kinds.iter().any(|k| *k == "win") {
+        let i = kinds.iter().position(|k| *k != "plain" && *k != "nosym").unwrap_or(0);
+        if kinds.iter().filter(|k| **k == "plain" || **k == "nosym").count() > 1 || !(kinds[i] == "plain" || kinds[i] == "nosym") {
+            kinds[i] = "win";
+        } else {
+            kinds.push("win");
+        }
+    }
+    let mut base: u64 = match rng.below(if wide { 5 } else { 4 }) {
+        0 => 0x1_0000 + rng.below(16) * 0x1000,
+        1 => 0x40_0000 + rng.below(64) * 0x1_0000,
+        2 => 0x7000_0000 + rng.below(0x100) * 0x1_0000,
+        3 => 0xffc0_0000 + rng.below(0x10) * 0x1_0000, // modules just below 2^32
+        _ => 0x7400_c000_0000u64 + rng.below(64) * 0x10_0000,
+    };
+    let fpn = fp_name(arch).to_string();
+    for (i, mk) in kinds.iter().enumerate() {
+        let name = format!("m{i}");
+        if *mk == "nosym" {
+            let msize = 0x800 + rng.below(0x4000);
+            w.funcs.push(MFunc { module: i, start: base, size: msize, name: None, kind: Kind::Plain, psize: None, sav: 0, loc: 0 });
+            w.mods.push((base, msize as u32, name));
+            base += msize + if rng.chance(1, 3) { 0 } else { rng.below(0x10_0000) };
+            continue;
+        }
+        let mut recs = vec![];
+        let mut wins = vec![];
+        let nf = 1 + rng.below(5);
+        let mut at = if rng.chance(1, 4) { 0 } else { rng.below(0x100) };
+        let mut leaf_done = false;
+        for k in 0..nf {
+            let size = 16 + rng.below(0x300);
+            let fname = format!("f{i}x{k}");
+            let fpsize = 4 * rng.below(4) as u32;
+            let mut f = MFunc { module: i, start: base + at, size, name: Some(fname.clone()), kind: Kind::Plain, psize: Some(fpsize), sav: 0, loc: 0 };
+            match *mk {
+                "cfi" if !rng.chance(1, 6) => {
+                    if !matches!(arch, "x86" | "amd64") && !leaf_done && rng.chance(1, 3) {
+                        leaf_done = true;
+                        f.kind = Kind::CfiLeaf;
+                        let lr = if arch.starts_with("mips") { "$ra" } else { "lr" };
+                        recs.push(Rec::C { addr: at, size: size as u32, rules: format!(".cfa: {} 0 + .ra: {}", reg_tok(arch, sp_name(arch)), lr) });
+                    } else {
+                        let mut pool: Vec<String> = other_callee_saved(arch).iter().map(|s| s.to_string()).collect();
+                        pool.push(fpn.clone());
+                        pool.push(fpn.clone()); // the frame pointer is saved more often than the others
+                        let mut saved: Vec<String> = vec![];
+                        for _ in 0..rng.below(5) {
+                            let r = rng.pick(&pool).clone();
+                            if !saved.contains(&r) {
+                                saved.push(r);
+                            }
+                        }
+                        let words = saved.len() as u64 + 1 + if rng.chance(1, 10) { 200 + rng.below(2000) } else { rng.below(10) };
+                        recs.push(Rec::C { addr: at, size: size as u32, rules: canonical_cfi_regs(arch, words, &saved) });
+                        f.kind = Kind::Cfi { words, saved };
+                    }
+                }
+                "win" if !rng.chance(1, 8) => {
+                    let par = 4 * rng.below(5) as u32;
+                    f.loc = 4 * rng.below(12) as u32;
+                    f.sav = 4 * rng.below(5) as u32;
+                    f.kind = match rng.below(6) {
+                        0 => Kind::WinStd { saved: { let n = rng.below(4); pick_saved(rng, n, 4) }, msvc: rng.chance(1, 2) },
+                        1 => Kind::WinRaAt { saved: { let n = rng.below(3); pick_saved(rng, n, 8) } },
+                        2 | 3 => {
+                            let slots = ((f.loc + f.sav) / 4) as u64;
+                            let mut offs: Vec<u64> = (1..=slots).map(|x| x * 4).collect();
+                            let mut take = |rng: &mut Rng| -> Option<u64> {
+                                if offs.is_empty() {
+                                    None
+                                } else {
+                                    Some(offs.remove(rng.below(offs.len() as u64) as usize))
+                                }
+                            };
+                            let ebp_off = if rng.chance(2, 3) { take(rng) } else { None };
+                            let mut saved = vec![];
+                            let mut names = vec!["ebx", "esi", "edi"];
+                            for _ in 0..rng.below(3) {
+                                if let Some(o) = take(rng) {
+                                    saved.push((names.remove(rng.below(names.len() as u64) as usize).to_string(), o));
+                                }
+                            }
+                            Kind::WinRa { ebp_off, saved }
+                        }
+                        4 => Kind::Fpo { abp: false },
+                        _ => {
+                            f.sav = 8 + 4 * rng.below(3) as u32;
+                            Kind::Fpo { abp: true }
+                        }
+                    };
+                    f.psize = Some(par);
+                    match &f.kind {
+                        Kind::Fpo { abp } => wins.push(WinRec { ty: '0', addr: at, size, par, sav: f.sav, loc: f.loc, rest: if *abp { "1".into() } else { "0".into() } }),
+                        k => {
+                            wins.push(WinRec { ty: '4', addr: at, size, par, sav: f.sav, loc: f.loc, rest: win_program(k) });
+                            if rng.chance(1, 6) {
+                                // an FPO record for the same function: frame data is preferred
+                                wins.push(WinRec { ty: '0', addr: at, size, par: par + 4, sav: f.sav + 8, loc: f.loc + 4, rest: "0".into() });
+                            }
+                        }
+                    }
+                }
+                _ => {}
+            }
+            recs.push(Rec::F { addr: at, size: size as u32, psize: fpsize, name: fname });
+            w.funcs.push(f);
+            at += size + if rng.chance(1, 2) { 0 } else { rng.below(0x40) };
+        }
+        let msize = at + if rng.chance(1, 4) { 0 } else { rng.below(0x1000) + 1 };
+        w.syms.push((name.clone(), recs));
+        w.wins.push((name.clone(), wins));
+        w.mods.push((base, msize as u32, name));
+        base += msize + if rng.chance(1, 3) { 0 } else { rng.below(0x10_0000) };
+    }
+    w
+}
+
+/// a chain whose technique changes from frame to frame (`win`: x86 with STACK WIN records)
+fn gen_mixed(rng: &mut Rng, tech: &str, arch: &str, os: &str) -> Option<String> {
+    let p = ptr_of(arch);
+    let adj = adj_of(arch);
+    let x86 = arch == "x86";
+    let fp_cap = fp_capable(arch, os);
+    let ios_arm = arch == "arm" && os == "ios";
+    let world = build_mworld(rng, arch, tech == "win");
+    let funcs = &world.funcs;
+    let vmask: u64 = if p == 4 { u32::MAX as u64 } else { u64::MAX };
+    let enders: Vec<usize> = funcs.iter().enumerate().filter(|(_, f)| f.kind == Kind::Plain).map(|x| x.0).collect();
+    let callable: Vec<usize> = funcs.iter().enumerate().filter(|(_, f)| f.kind != Kind::CfiLeaf).map(|x| x.0).collect();
+    if enders.is_empty() || callable.is_empty() {
+        return None;
+    }
+    let maxd = *rng.pick(&[2u64, 6, 16, 64]);
+    let depth = 1 + rng.below(maxd);
+
+    let mut words: Vec<Word> = vec![];
+    fn put(words: &mut Vec<Word>, i: u64, v: Word) {
+        if words.len() <= i as usize {
+            words.resize(i as usize + 1, Word::Val(0));
+        }
+        words[i as usize] = v;
+    }
+    let garbage = |rng: &mut Rng, at: u64| -> Word {
+        match rng.below(8) {
+            0 => Word::Val(rng.below(4096)),
+            1 => Word::Val(rng.next() & vmask & 0x7fff_ffff_ffff),
+            2 | 3 => {
+                let f = &funcs[rng.below(funcs.len() as u64) as usize];
+                Word::Val(f.start + rng.below(f.size))
+            }
+            4 => Word::Addr(at + rng.below(24)),
+            _ => Word::Val(0),
+        }
+    };
+    let maxoff = |saved: &[(String, u64)]| saved.iter().map(|x| x.1).max().unwrap_or(0) / 4;
+    // words of its own frame a function needs below a live frame pointer handed to it
+    let need_words = |t: &MFunc, g: u32| -> u64 {
+        match &t.kind {
+            Kind::Cfi { words, .. } => *words,
+            Kind::WinRa { .. } | Kind::Fpo { .. } => ((t.loc + t.sav + g) / 4) as u64 + 2,
+            Kind::WinStd { saved, .. } => maxoff(saved),
+            Kind::WinRaAt { saved } => maxoff(saved),
+            _ => 0,
+        }
+    };
+    // a frame-pointer value for a frame of function `t` whose stack pointer index is `s_new`,
+    // where the unwinding technique is free to produce any
+    let choose_fp = |rng: &mut Rng, t: &MFunc, last: bool, s_new: u64, g: u32, live_only: bool| -> Fp {
+        let near = Fp::Live(s_new + need_words(t, g) + rng.below(6));
+        let any = |rng: &mut Rng| match rng.below(3) {
+            0 if !live_only => Fp::Zero,
+            1 if !live_only => Fp::Stale(Word::Val((0x100 + rng.next()) & 0x7fff_fff0)),
+            _ => Fp::Live(s_new + need_words(t, g) + rng.below(8)),
+        };
+        match &t.kind {
+            Kind::WinStd { .. } | Kind::WinRaAt { .. } => near,
+            Kind::Plain if fp_cap => {
+                if live_only || (ios_arm && !last) {
+                    near
+                } else if last {
+                    if rng.chance(1, 2) {
+                        Fp::Zero
+                    } else {
+                        near
+                    }
+                } else if rng.chance(2, 3) {
+                    near
+                } else {
+                    Fp::Zero
+                }
+            }
+            _ => any(rng),
+        }
+    };
+    // can a frame of `t` be unwound (or the walk end there) with this frame pointer?
+    let acceptable = |fp: &Fp, t: &MFunc, last: bool, s_new: u64| -> bool {
+        match &t.kind {
+            Kind::WinStd { saved, .. } | Kind::WinRaAt { saved } => matches!(fp, Fp::Live(x) if *x >= s_new + maxoff(saved)),
+            Kind::WinRa { .. } | Kind::Fpo { .. } => *fp != Fp::Invalid,
+            Kind::Plain if fp_cap => match fp {
+                Fp::Live(x) => *x >= s_new,
+                Fp::Zero => !(ios_arm && !last),
+                Fp::Invalid => true,
+                Fp::Stale(_) => false,
+            },
+            _ => true,
+        }
+    };
+
+    // ---- the context frame
+    let mut cur = if !matches!(arch, "x86" | "amd64") && rng.chance(1, 4) {
+        match funcs.iter().position(|f| f.kind == Kind::CfiLeaf) {
+            Some(i) => i,
+            None => *rng.pick(&callable),
+        }
+    } else {
+        *rng.pick(&callable)
+    };
+    let mut ip = funcs[cur].start + rng.below(funcs[cur].size);
+    let ip0 = ip;
+    let mut s: u64 = rng.below(4);
+    let s0 = s;
+    let mut fp = {
+        let live0 = arch == "amd64" && funcs[cur].kind == Kind::Plain && rng.chance(1, 2);
+        let f0 = choose_fp(rng, &funcs[cur], false, s, 0, live0);
+        // a context whose frame pointer is not valid: scanning starts right away
+        if funcs[cur].kind == Kind::Plain && fp_cap && f0 == Fp::Zero && rng.chance(1, 2) {
+            Fp::Invalid
+        } else if funcs[cur].kind == Kind::Plain && fp_cap && ios_arm && rng.chance(1, 3) {
+            Fp::Invalid
+        } else {
+            f0
+        }
+    };
+    if arch == "amd64" && matches!(fp, Fp::Stale(_)) && funcs[cur].kind == Kind::Plain {
+        fp = Fp::Zero;
+    }
+    let fp0 = fp;
+    let partial = fp == Fp::Invalid || rng.chance(1, 8);
+    let mut known: BTreeMap<String, u64> = BTreeMap::new();
+    let mut ctx_regs: Vec<(String, u64)> = vec![];
+    let mut valid: Vec<String> = vec![ip_name(arch).into(), sp_name(arch).into()];
+    if fp != Fp::Invalid {
+        valid.push(fp_name(arch).into());
+    }
+    for r in other_callee_saved(arch) {
+        let v = if rng.chance(1, 2) { rng.next() & vmask & 0x7fff_ffff_ffff } else { 0 };
+        if v != 0 {
+            ctx_regs.push((r.to_string(), v));
+        }
+        if !partial || rng.chance(1, 2) {
+            valid.push(r.to_string());
+            known.insert(r.to_string(), v);
+        }
+    }
+    let mut lr_reg: Option<(String, u64)> = None;
+    let mut first = true;
+    let mut g: u32 = 0;
+    let mut exp: Vec<Exp> = vec![];
+    let mut leftover_used = false;
+    // ARM/ARM64: the frame-pointer unwinder marks `r11`/`x29` valid, `callee_forwarded_regs` looks
+    // for `fp` — a CFI frame above a frame-pointer frame loses the frame pointer (known finding)
+    let arm_like = matches!(arch, "arm" | "arm64" | "arm64old");
+    let mut prev_tech = "context";
+
+    for i in 0..depth {
+        let last = i + 1 == depth;
+        let f = funcs[cur].clone();
+        // the function the return address points into
+        let recursion = !first && !last && f.kind != Kind::CfiLeaf && rng.chance(1, 5);
+        let t_idx = if recursion {
+            cur
+        } else if last {
+            *rng.pick(&enders)
+        } else {
+            *rng.pick(&callable)
+        };
+        let t = funcs[t_idx].clone();
+        let ret = if recursion {
+            ip
+        } else {
+            match rng.below(6) {
+                0 => t.start + adj,
+                1 => t.start + t.size,
+                _ => t.start + adj + rng.below(t.size - adj + 1),
+            }
+        };
+        if ret == ip && !recursion && first {
+            return None;
+        }
+        let g_next = f.psize.unwrap_or(0);
+        let mut regs_out: BTreeMap<String, u64> = BTreeMap::new();
+        let step_tech: &str;
+        let s_new: u64;
+        let fp_new: Fp;
+        match &f.kind {
+            Kind::CfiLeaf => {
+                if !first {
+                    return None;
+                }
+                step_tech = "cfi";
+                lr_reg = Some((if arch.starts_with("mips") { "ra" } else { "lr" }.to_string(), ret));
+                valid.push(lr_reg.clone().unwrap().0);
+                s_new = s;
+                fp_new = fp;
+                if !acceptable(&fp_new, &t, last, s_new) {
+                    return None;
+                }
+                regs_out = known.clone();
+            }
+            Kind::Cfi { words: n, saved } => {
+                step_tech = "cfi";
+                s_new = s + n;
+                for j in s..s_new {
+                    let gw = garbage(rng, j);
+                    put(&mut words, j, gw);
+                }
+                // ARM64: pointer-authentication bits above bit 46 of the saved return address are stripped
+                let pac = if arm_like && arch != "arm" && rng.chance(1, 3) { (1 + rng.below(0x1ffff)) << 47 } else { 0 };
+                put(&mut words, s_new - 1, Word::Val(ret | pac));
+                regs_out = known.clone();
+                let mut fpn = match fp {
+                    _ if arm_like && prev_tech == "fp" => Fp::Invalid,
+                    Fp::Live(x) if x < s_new => Fp::Stale(Word::Addr(x)),
+                    o => o,
+                };
+                for (k, r) in saved.iter().enumerate() {
+                    let slot = s_new - 2 - k as u64;
+                    if r == fp_name(arch) {
+                        fpn = choose_fp(rng, &t, last, s_new, g_next, false);
+                        put(&mut words, slot, fpn.word().unwrap());
+                    } else {
+                        let v = rng.next() & vmask & 0x7fff_ffff_ffff;
+                        put(&mut words, slot, Word::Val(v));
+                        regs_out.insert(r.clone(), v);
+                    }
+                }
+                fp_new = fpn;
+                if !acceptable(&fp_new, &t, last, s_new) {
+                    return None;
+                }
+            }
+            Kind::Plain => {
+                let use_fp = fp_cap && matches!(fp, Fp::Live(_));
+                if fp_cap && matches!(fp, Fp::Stale(_)) {
+                    return None;
+                }
+                if fp_cap && ios_arm && fp == Fp::Zero {
+                    return None;
+                }
+                if use_fp {
+                    step_tech = "fp";
+                    let Fp::Live(x) = fp else { unreachable!() };
+                    if x < s {
+                        return None;
+                    }
+                    for j in s..x {
+                        let gw = garbage(rng, j);
+                        put(&mut words, j, gw);
+                    }
+                    s_new = x + 2;
+                    fp_new = choose_fp(rng, &t, last, s_new, g_next, arch == "amd64");
+                    put(&mut words, x, fp_new.word().unwrap());
+                    put(&mut words, x + 1, Word::Val(ret));
+                } else {
+                    step_tech = "scan";
+                    let start = if arch == "mips32" && !first { s + 4 } else { s };
+                    for j in s..start {
+                        let gw = garbage(rng, j);
+                        put(&mut words, j, gw);
+                    }
+                    let window = match (arch, first) {
+                        ("mips32", true) => 256,
+                        ("mips32", false) => 252,
+                        ("mips64", _) => 128,
+                        (_, true) => 160,
+                        _ => 40,
+                    };
+                    let k = match rng.below(8) {
+                        0 => 0,
+                        1 => window - 1,
+                        _ => rng.below(window.min(24)),
+                    };
+                    for j in 0..k {
+                        put(&mut words, start + j, if rng.chance(1, 4) { Word::Val(1 + rng.below(4000)) } else { Word::Val(0) });
+                    }
+                    put(&mut words, start + k, Word::Val(ret));
+                    s_new = start + k + 1;
+                    // x86: the word below the return address is taken for the saved %ebp when it
+                    // points further up the stack
+                    let wants_live = matches!(t.kind, Kind::WinStd { .. } | Kind::WinRaAt { .. } | Kind::WinRa { .. } | Kind::Fpo { .. });
+                    if x86 && k >= 1 && (wants_live || rng.chance(1, 3)) {
+                        let fl = choose_fp(rng, &t, last, s_new, g_next, true);
+                        put(&mut words, start + k - 1, fl.word().unwrap());
+                        fp_new = fl;
+                    } else {
+                        fp_new = Fp::Invalid;
+                    }
+                }
+                if !acceptable(&fp_new, &t, last, s_new) {
+                    return None;
+                }
+            }
+            Kind::WinStd { saved, .. } | Kind::WinRaAt { saved } => {
+                step_tech = "win";
+                let Fp::Live(x) = fp else { return None };
+                let t0 = if matches!(f.kind, Kind::WinStd { .. }) { x } else { x + 1 };
+                if x < s || t0 < s + maxoff(saved) {
+                    return None;
+                }
+                for j in s..x {
+                    let gw = garbage(rng, j);
+                    put(&mut words, j, gw);
+                }
+                s_new = x + 2;
+                fp_new = choose_fp(rng, &t, last, s_new, g_next, false);
+                put(&mut words, x, fp_new.word().unwrap());
+                put(&mut words, x + 1, Word::Val(ret));
+                for (r, off) in saved {
+                    let v = rng.next() & 0x7fff_ffff;
+                    put(&mut words, t0 - off / 4, Word::Val(v));
+                    regs_out.insert(r.clone(), v);
+                }
+                if !acceptable(&fp_new, &t, last, s_new) {
+                    return None;
+                }
+            }
+            Kind::WinRa { ebp_off, saved } => {
+                step_tech = "win";
+                if fp == Fp::Invalid {
+                    return None;
+                }
+                let t0 = s + ((f.loc + f.sav + g) / 4) as u64;
+                for j in s..t0 {
+                    let gw = garbage(rng, j);
+                    put(&mut words, j, gw);
+                }
+                put(&mut words, t0, Word::Val(ret));
+                s_new = t0 + 1;
+                fp_new = match ebp_off {
+                    Some(off) => {
+                        let c = choose_fp(rng, &t, last, s_new, g_next, false);
+                        put(&mut words, t0 - off / 4, c.word().unwrap());
+                        c
+                    }
+                    None => match fp {
+                        Fp::Live(x) if x < s_new => Fp::Stale(Word::Addr(x)),
+                        o => o,
+                    },
+                };
+                for (r, off) in saved {
+                    let v = rng.next() & 0x7fff_ffff;
+                    put(&mut words, t0 - off / 4, Word::Val(v));
+                    regs_out.insert(r.clone(), v);
+                }
+                if !acceptable(&fp_new, &t, last, s_new) {
+                    return None;
+                }
+            }
+            Kind::Fpo { abp } => {
+                step_tech = "win";
+                if fp == Fp::Invalid {
+                    return None;
+                }
+                let mut a = s + ((f.loc + f.sav + g) / 4) as u64;
+                for j in s..a {
+                    let gw = garbage(rng, j);
+                    put(&mut words, j, gw);
+                }
+                // a "leftover return address": the context frame's own eip sits where the return
+                // address is expected; the walker skips it
+                if first && ip >= 4096 && rng.chance(1, 3) {
+                    put(&mut words, a, Word::Val(ip));
+                    a += 1;
+                    leftover_used = true;
+                }
+                put(&mut words, a, Word::Val(ret));
+                s_new = a + 1;
+                if *abp {
+                    let slot = (s + ((g + f.sav) / 4) as u64).checked_sub(2)?;
+                    let c = choose_fp(rng, &t, last, s_new, g_next, false);
+                    put(&mut words, slot, c.word().unwrap());
+                    fp_new = c;
+                } else {
+                    fp_new = match fp {
+                        Fp::Live(x) if x < s_new => Fp::Stale(Word::Addr(x)),
+                        o => o,
+                    };
+                    if let Some(v) = known.get("ebx") {
+                        regs_out.insert("ebx".into(), *v);
+                    }
+                }
+                if !acceptable(&fp_new, &t, last, s_new) {
+                    return None;
+                }
+            }
+        }
+        exp.push(Exp {
+            ret,
+            sp: s_new, // index for now, resolved below
+            fp: fp_new.word().map(|w| match w {
+                Word::Val(v) => v,
+                Word::Addr(x) => u64::MAX - x, // marker, resolved below
+            }),
+            module: t.module,
+            func: t.name.clone(),
+            tech: Some(step_tech.to_string()),
+            regs: regs_out.iter().map(|(k, v)| (k.clone(), *v)).collect(),
+        });
+        // remember which expected frame pointers are stack addresses
+        if let Some(Word::Addr(_)) = fp_new.word() {
+            exp.last_mut().unwrap().tech = Some(format!("{step_tech}@"));
+        }
+        known = regs_out;
+        prev_tech = step_tech;
+        cur = t_idx;
+        ip = ret;
+        s = s_new;
+        fp = fp_new;
+        g = g_next;
+        first = false;
+    }
+    let _ = leftover_used;
+    // ---- the generated end of the stack: zero words from the outermost frame's stack pointer on;
+    // a live frame pointer finds the record (0, 0)
+    let top = match fp {
+        Fp::Live(x) => x.max(s) + 2,
+        _ => s,
+    };
+    // every stack address stored anywhere must be readable
+    let hi = words.iter().filter_map(|w| if let Word::Addr(x) = w { Some(*x) } else { None }).max().unwrap_or(0);
+    let hi = hi.max(match fp0 { Fp::Live(x) => x, _ => 0 });
+    let total = top.max(hi + 2) + 2 + rng.below(8);
+    put(&mut words, total - 1, Word::Val(0));
+    let len = total * p;
+    let wide = p == 8;
+    let mods_lo = world.mods.first().map(|m| m.0).unwrap_or(0);
+    let mods_hi = world.mods.last().map(|m| m.0 + m.1 as u64).unwrap_or(0);
+    let base: u64 = {
+        let cands: Vec<u64> = if wide {
+            vec![
+                (0x2000_0000 + rng.below(0x3000_0000)) & !(p - 1),
+                (0x7fff_0000_0000 + rng.below(0x1000_0000)) & !(p - 1),
+                (1u64 << 32) - (rng.below(total) + 1) * p, // straddles 2^32
+                if arch == "amd64" || arch == "mips64" { (u64::MAX - len - 0x100 - rng.below(64) * p) & !(p - 1) } else { 0x10_0000_0000 },
+            ]
+        } else {
+            vec![
+                (0x2000_0000 + rng.below(0x3000_0000)) & !(p - 1),
+                (0x0800_0000 + rng.below(0x0100_0000)) & !(p - 1),
+                (u32::MAX as u64 - len - 0x20 - rng.below(64) * p) & !(p - 1), // ends just below 2^32
+            ]
+        };
+        let b = *rng.pick(&cands);
+        // keep clear of the modules
+        if b.saturating_add(len + 0x1000) < mods_lo || b > mods_hi + 0x1000 {
+            b
+        } else {
+            return None;
+        }
+    };
+    if !wide && base + len > u32::MAX as u64 - 16 {
+        return None;
+    }
+    let addr = |i: u64| base + i * p;
+    let mut bytes = vec![0u8; len as usize];
+    for (i, w) in words.iter().enumerate() {
+        let v = match w {
+            Word::Val(v) => *v,
+            Word::Addr(x) => addr(*x),
+        };
+        put_word(&mut bytes, i as u64, p, v);
+    }
+    for e in exp.iter_mut() {
+        e.sp = addr(e.sp);
+        if let Some(t) = e.tech.clone() {
+            if let Some(tt) = t.strip_suffix('@') {
+                e.fp = e.fp.map(|m| addr(u64::MAX - m));
+                e.tech = Some(tt.to_string());
+            }
+        }
+    }
+    let mut regs: Vec<(String, u64)> = vec![(ip_name(arch).into(), ip0), (sp_name(arch).into(), addr(s0))];
+    if let Some(w) = fp0.word() {
+        let v = match w {
+            Word::Val(v) => v,
+            Word::Addr(x) => addr(x),
+        };
+        regs.push((fp_name(arch).into(), v));
+    }
+    regs.extend(ctx_regs);
+    if let Some(l) = lr_reg {
+        regs.push(l);
+    }
+    let case = Case {
+        engine: "chain".into(),
+        extra: vec![tech.to_string(), render_exp(&exp), render_wins(&world.wins)],
+        arch: arch.into(),
+        os: os.into(),
+        regs,
+        valid: if partial { Some(valid) } else { None },
+        stack: Some((base, bytes)),
+        mods: world.mods,
+        syms: world.syms,
+        symraw: vec![],
+    };
+    Some(case.render())
+}
+
 fn want_trust(tech: &str) -> FrameTrust {
     match tech {
         "fp" => FrameTrust::FramePointer,
-        "cfi" => FrameTrust::CallFrameInfo,
+        "cfi" | "win" => FrameTrust::CallFrameInfo,
         _ => FrameTrust::Scan,
     }
+}
+
+/// the case as the real code gets it: modules with STACK WIN records carry their symbols as text
+fn with_win_text(c: &Case, wins: &[(String, Vec<WinRec>)]) -> Case {
+    let mut r = c.clone();
+    for (m, recs) in wins {
+        if recs.is_empty() {
+            continue;
+        }
+        let base = match r.syms.iter().position(|(n, _)| n == m) {
+            Some(i) => {
+                let (n, rs) = r.syms.remove(i);
+                sym_text(&n, &rs)
+            }
+            None => sym_text(m, &[]),
+        };
+        let mut text = base;
+        for w in recs {
+            text.push_str(&w.line());
+        }
+        r.symraw.push((m.clone(), text.into_bytes()));
+    }
+    r
 }
 
 impl Engine for Chain {
@@ -283,20 +1199,44 @@ impl Engine for Chain {
         "chain"
     }
     fn rule(&self) -> String {
-        "case = a generated call chain (depth 1..64) laid out on a stack for one technique per walk: frame-pointer chains (x86, amd64 incl. the Windows 16-byte-step slack of up to 240 bytes, arm64 both layouts, arm on iOS), canonical STACK CFI (`.cfa: $sp N + .ra: .cfa -W + ^ [fp: .cfa -2W + ^]`, optional leaf first frame `.ra: lr` on ARM/ARM64/MIPS) on all seven context kinds/modes, or return addresses findable only by scanning (junk words within the 40/160-word windows, MIPS 4-word skip); random non-overlapping modules and FUNC layouts, 5 OSes. Oracle: walk_stack's frames = the generated chain (count, return address, sp, technique label, recovered frame pointer, module, function) when the Lean precondition `Pre` accepts the case; model compared frame by frame. non-trivial = chain depth >= 2; distinct = distinct case line".into()
+        "case = a generated call chain (depth 1..64) laid out on a stack. One technique per walk: frame-pointer chains (x86, amd64 incl. the Windows 16-byte-step slack of up to 240 bytes, arm64 both layouts, arm on iOS), canonical STACK CFI (`.cfa: $sp N + .ra: .cfa -W + ^ [fp: .cfa -2W + ^]`, optional leaf first frame `.ra: lr` on ARM/ARM64/MIPS) on all seven context kinds/modes, or return addresses findable only by scanning (junk words within the 40/160-word windows, MIPS 4-word skip). `win`: x86 stacks through functions with STACK WIN records (frame data with the standard prologue program and saved registers, `.raSearch` programs with and without `@`, FPO records with and without allocates_base_pointer, non-zero parameter sizes of callee and grand-callee, the leftover-return-address skip on the context frame, direct recursion with equal return addresses) with frames in modules without symbols or with STACK CFI below/between them. `mixed`: the technique (cfi with several saved callee-saved registers / frame pointer / scan / win) changes from frame to frame on every architecture, contexts with partial validity, stacks ending below 2^32 / straddling 2^32 / at the top of the address space, return addresses at the first byte and one past the last byte of a FUNC, adjacent FUNCs and modules, frames of thousands of words. Oracle: walk_stack's frames = the generated chain (count, return address, sp, technique label, recovered frame pointer and the other recovered callee-saved registers, module, function) when the Lean precondition `Pre` accepts the case; model compared frame by frame. non-trivial = chain depth >= 2; distinct = distinct case line".into()
     }
 
     fn generate(&self, tier: Tier, rng: &mut Rng, emit: &mut dyn FnMut(String)) {
         let n = if tier == Tier::Quick { 500 } else { 12000 };
+        // CHAIN_DUMP=<file>: also write every 97th generated case there (debugging, corpus building)
+        let dump = std::env::var("CHAIN_DUMP").ok();
+        let mut dumped: Vec<String> = vec![];
+        let mut count = 0u64;
+        let mut emit = |c: String| {
+            count += 1;
+            if dump.is_some() && count % 97 == 0 {
+                dumped.push(c.clone());
+            }
+            emit(c)
+        };
         for tech in TECHS {
             for arch in ARCHS {
+                if *tech == "win" && *arch != "x86" {
+                    continue;
+                }
+                let n = if *tech == "win" { 3 * n } else { n };
                 for i in 0..n {
                     let os = match (*tech, *arch) {
                         ("fp", "arm") => "ios",
+                        ("win", _) if i % 4 != 3 => "windows",
+                        ("mixed", "arm") if i % 2 == 0 => "ios",
                         _ => OSES[(i % OSES.len() as u64) as usize],
                     };
-                    for _ in 0..8 {
-                        if let Some(c) = gen_chain(rng, tech, arch, os) {
+                    for _ in 0..24 {
+                        let c = match catch(|| if matches!(*tech, "win" | "mixed") { gen_mixed(rng, tech, arch, os) } else { gen_chain(rng, tech, arch, os) }) {
+                            Ok(c) => c,
+                            Err(msg) => {
+                                eprintln!("chain generator panicked ({tech} {arch} {os}): {msg}");
+                                None
+                            }
+                        };
+                        if let Some(c) = c {
                             emit(c);
                             break;
                         }
@@ -307,28 +1247,39 @@ impl Engine for Chain {
                 }
             }
         }
+        if let Some(path) = dump {
+            let _ = std::fs::write(path, dumped.join("\n"));
+        }
     }
 
     fn exec(&self, case: &str) -> ImplResult {
         let mut res = ImplResult::default();
-        let Some(c) = Case::parse(case, 2) else {
+        let Some((tech, exp, wins, c)) = parse_case(case) else {
             res.out = "bad-op".into();
             return res;
         };
-        let tech = c.extra[0].clone();
-        let Some(exp) = parse_exp(&c.extra[1]) else {
-            res.out = "bad-op".into();
-            return res;
-        };
-        if !TECHS.contains(&tech.as_str()) {
-            res.out = "bad-op".into();
-            return res;
-        }
         res.tags.push(format!("tech:{tech}"));
         res.tags.push(format!("arch:{}", c.arch));
         res.tags.push(format!("depth:{}", match exp.len() { 0..=1 => "1", 2..=4 => "2-4", 5..=16 => "5-16", _ => "17-64" }));
+        for e in &exp {
+            if let Some(t) = &e.tech {
+                res.tags.push(format!("frame-via:{t}"));
+            }
+        }
+        for (_, recs) in &wins {
+            for r in recs {
+                res.tags.push(format!("win-record:{}", if r.ty == '4' { "framedata" } else if r.rest == "1" { "fpo-abp" } else { "fpo" }));
+            }
+        }
+        if exp.windows(2).any(|w| w[0].ret == w[1].ret) {
+            res.tags.push("direct-recursion".into());
+        }
+        if exp.iter().any(|e| e.func.is_none()) {
+            res.tags.push("frame-without-symbols".into());
+        }
         res.nontrivial = exp.len() >= 2;
-        let stack = match run_walk(&c) {
+        let run_case = with_win_text(&c, &wins);
+        let stack = match run_walk(&run_case) {
             Err(msg) => {
                 res.out = "PANIC".into();
                 res.oracle.push(("walk-panics".into(), msg));
@@ -345,6 +1296,7 @@ impl Engine for Chain {
             Some("1") | None => {}
             Some("0") => {
                 res.tags.push("pre-rejected".into());
+                res.tags.push(format!("pre-rejected:{tech}"));
                 return res;
             }
             Some(other) => {
@@ -361,6 +1313,7 @@ impl Engine for Chain {
         }
         for (i, e) in exp.iter().enumerate() {
             let Some(f) = fs.get(i + 1) else { break };
+            let ft = e.tech.clone().unwrap_or_else(|| tech.clone());
             if f.resume_address != e.ret {
                 mismatch(format!("frame {}: return address {} expected {}", i + 1, f.resume_address, e.ret));
                 break;
@@ -369,8 +1322,8 @@ impl Engine for Chain {
                 mismatch(format!("frame {}: sp {} expected {}", i + 1, f.context.get_stack_pointer(), e.sp));
                 break;
             }
-            if f.trust != want_trust(&tech) {
-                mismatch(format!("frame {}: found by {} expected {}", i + 1, f.trust.as_str(), want_trust(&tech).as_str()));
+            if f.trust != want_trust(&ft) {
+                mismatch(format!("frame {}: found by {} expected {} ({ft})", i + 1, f.trust.as_str(), want_trust(&ft).as_str()));
                 break;
             }
             if let Some(want) = e.fp {
@@ -380,9 +1333,21 @@ impl Engine for Chain {
                     break;
                 }
             }
+            let mut bad_reg = false;
+            for (r, want) in &e.regs {
+                let got = f.context.get_register(r);
+                if got != Some(*want) {
+                    mismatch(format!("frame {}: recovered {} = {:?} expected {}", i + 1, r, got, want));
+                    bad_reg = true;
+                    break;
+                }
+            }
+            if bad_reg {
+                break;
+            }
             let m = f.module.as_ref().and_then(|m| c.mods.iter().position(|(b, _, n)| *b == m.base_address() && *n == m.name));
-            if m != Some(e.module) || f.function_name.as_deref() != Some(e.func.as_str()) {
-                mismatch(format!("frame {}: module {:?} function {:?} expected module {} function {}", i + 1, m, f.function_name, e.module, e.func));
+            if m != Some(e.module) || f.function_name != e.func {
+                mismatch(format!("frame {}: module {:?} function {:?} expected module {} function {:?}", i + 1, m, f.function_name, e.module, e.func));
                 break;
             }
         }
@@ -391,11 +1356,25 @@ impl Engine for Chain {
 
     fn model_request(&self, case: &str) -> Option<String> {
         // the model walks the very same inputs: drop the technique and expectation fields
-        let f: Vec<&str> = case.splitn(4, ' ').collect();
-        if f.len() == 4 {
-            Some(format!("walk {}", f[3]))
+        let third = case.split(' ').filter(|s| !s.is_empty()).nth(3).unwrap_or("");
+        if third.starts_with("win:") {
+            let f: Vec<&str> = case.splitn(5, ' ').collect();
+            if f.len() == 5 {
+                if f[3] == "win:-" {
+                    Some(format!("walk {}", f[4]))
+                } else {
+                    Some(format!("chain walk {} {}", f[3], f[4]))
+                }
+            } else {
+                None
+            }
         } else {
-            None
+            let f: Vec<&str> = case.splitn(4, ' ').collect();
+            if f.len() == 4 {
+                Some(format!("walk {}", f[3]))
+            } else {
+                None
+            }
         }
     }
 
